@@ -365,15 +365,47 @@ func (g *gen) fields(s *types.Struct) string {
 	return "[" + strings.Join(parts, ";\n    ") + "]"
 }
 
-// firstStruct returns the first anonymous struct type written in the body of fn.
-func (g *gen) firstStruct(fn string) *types.Struct {
-	fd := g.decls[fn]
-	if fd == nil {
+// helperStruct returns the struct that fn hands to the codec entry point callee as argument
+// number arg (a value, or a pointer to it): the header object of OSM.MarshalJSON /
+// OSM.UnmarshalJSON, whether it is an anonymous struct written in the body or a named type,
+// filled positionally or by keys, in the method itself or in a helper it calls.  Falls back to
+// the first anonymous struct type written in the body.
+func (g *gen) helperStruct(fn, callee string, arg int) *types.Struct {
+	if g.decls[fn] == nil {
 		g.fail("%s not found", fn)
 		return nil
 	}
 	var st *types.Struct
-	ast.Inspect(fd.Body, func(n ast.Node) bool {
+	for _, fd := range g.reachable(fn) {
+		ast.Inspect(fd.Body, func(n ast.Node) bool {
+			if st != nil {
+				return false
+			}
+			c, ok := n.(*ast.CallExpr)
+			if !ok || len(c.Args) <= arg {
+				return true
+			}
+			if id, ok := c.Fun.(*ast.Ident); !ok || id.Name != callee {
+				return true
+			}
+			tv, ok := g.p.Info.Types[c.Args[arg]]
+			if !ok {
+				return true
+			}
+			t := tv.Type
+			if p, ok := t.(*types.Pointer); ok {
+				t = p.Elem()
+			}
+			if s, ok := t.Underlying().(*types.Struct); ok {
+				st = s
+			}
+			return true
+		})
+		if st != nil {
+			return st
+		}
+	}
+	ast.Inspect(g.decls[fn].Body, func(n ast.Node) bool {
 		if st != nil {
 			return false
 		}
@@ -385,7 +417,7 @@ func (g *gen) firstStruct(fn string) *types.Struct {
 		return true
 	})
 	if st == nil {
-		g.fail("%s: no anonymous struct", fn)
+		g.fail("%s: no struct handed to %s", fn, callee)
 	}
 	return st
 }
@@ -588,7 +620,11 @@ func main() {
 		g.emitted[n] = true
 	}
 	for _, fn := range []string{"OSM.MarshalJSON", "OSM.UnmarshalJSON"} {
-		if st := g.firstStruct(fn); st != nil {
+		callee, arg := "marshalJSON", 0
+		if fn == "OSM.UnmarshalJSON" {
+			callee, arg = "unmarshalJSON", 1
+		}
+		if st := g.helperStruct(fn, callee, arg); st != nil {
 			fmt.Fprintf(&b, "Definition f_%s : list field :=\n   %s.\n\n", strings.ReplaceAll(fn, ".", "_"), g.fields(st))
 		}
 	}
